@@ -7,11 +7,14 @@
   `lin_program_order`); (2) every method of the repaired source has the lock shape that puts it
   in that fragment or makes it a read followed by one re-validating write section
   (`shape_single_effect`, over the table `allowedShapes`, which the harness checks against every
-  observed lock trace). The full statement — every call/return history of the real code is
+  observed lock trace); (3) check-then-act operations whose write section redoes the check are
+  linearizable under every interleaving of their two sections (`two_phase_linearizable`), and Mkdir /
+  MkdirAll of the MemMapFs model are such operations (`mkdirTP`, `mkdirAllTP`). The full statement — every call/return history of the real code is
   linearizable — is decided by exhaustive bounded schedule exploration with a linearizability
   search on the implementation (see DESIGN.md), not by a theorem.
 -/
 import AferoVerif.Model.Conc
+import AferoVerif.Model.FsOp
 namespace AferoVerif.C04
 open AferoVerif.Conc
 
@@ -90,6 +93,98 @@ theorem lin_program_order (ts : List (List (AOp S R))) (sched : List Nat) (i : N
             simp [List.getD_eq_getElem?_getD, List.getElem?_set, hij]
           rw [h1] at hr
           exact hr
+
+/-! ### check-then-act operations: a read section that may answer early, then one re-validating
+      write section (Mkdir, MkdirAll) -/
+
+/-- an operation in two critical sections: `pre` (under the read lock) either answers at once or
+    lets the call go on to `act` (under the write lock), which does the whole job again from
+    scratch. `sound`: whenever `pre` answers, `act` in that same state would have given the same
+    answer and changed nothing — the early answer is an atomic execution of `act` at that instant. -/
+structure TwoPhase (S R : Type) where
+  pre : S → Option R
+  act : S → S × R
+  sound : ∀ s x, pre s = some x → act s = (s, x)
+
+/-- a goroutine: the calls still to make, and whether the first of them is past its read section -/
+structure G (S R : Type) where
+  ops : List (TwoPhase S R)
+  inAct : Bool := false
+
+/-- the concurrent run, one critical section per schedule entry; returns the final state, the
+    results in completion order, and the calls in the order of their linearization points (the read
+    section for an early answer, the write section otherwise) -/
+def run2 (s : S) (gs : List (G S R)) : List Nat → S × List (Nat × R) × List (TwoPhase S R)
+  | [] => (s, [], [])
+  | i :: sched =>
+    match gs[i]? with
+    | some ⟨op :: rest, false⟩ =>
+      match op.pre s with
+      | some x =>                                   -- answered under the read lock
+        let out := run2 s (gs.set i ⟨rest, false⟩) sched
+        (out.1, (i, x) :: out.2.1, op :: out.2.2)
+      | none => run2 s (gs.set i ⟨op :: rest, true⟩) sched
+    | some ⟨op :: rest, true⟩ =>
+      let r := op.act s                             -- the write section
+      let out := run2 r.1 (gs.set i ⟨rest, false⟩) sched
+      (out.1, (i, r.2) :: out.2.1, op :: out.2.2)
+    | _ => run2 s gs sched
+
+/-- **check-then-act operations are linearizable**: every interleaving of their read and write
+    sections gives the final state and the results of executing the calls atomically (`act`), one at
+    a time, in the order of their linearization points -/
+theorem two_phase_linearizable (s : S) (gs : List (G S R)) (sched : List Nat) :
+    (run2 s gs sched).1 = (runSeq s ((run2 s gs sched).2.2.map (·.act))).1 ∧
+    (run2 s gs sched).2.1.map (·.2) = (runSeq s ((run2 s gs sched).2.2.map (·.act))).2 := by
+  induction sched generalizing s gs with
+  | nil => simp [run2, runSeq]
+  | cons i sched ih =>
+    unfold run2
+    split
+    · rename_i op rest _
+      split
+      · rename_i x hx
+        simp only [List.map_cons, runSeq]
+        rw [op.sound s x hx]
+        obtain ⟨h1, h2⟩ := ih s (gs.set i ⟨rest, false⟩)
+        exact ⟨h1, by rw [h2]⟩
+      · exact ih s _
+    · rename_i op rest _
+      simp only [List.map_cons, runSeq]
+      obtain ⟨h1, h2⟩ := ih (op.act s).1 (gs.set i ⟨rest, false⟩)
+      exact ⟨h1, by rw [h2]⟩
+    · exact ih s gs
+
+/-- `Mkdir` as it is in memmap.go: existence check under the read lock, then under the write lock
+    the check again and the creation (= the whole sequential `mkdir`) -/
+def mkdirTP (k : Key) (perm : Nat) : TwoPhase MemFs MRes where
+  pre m := if (m.lookup k).isSome then some (.err .exist) else none
+  act m := m.mkdir k perm
+  sound m x h := by
+    cases hl : m.lookup k with
+    | none => simp [hl] at h
+    | some f =>
+      simp [hl] at h
+      subst h
+      unfold MemFs.mkdir
+      simp only [hl]
+
+/-- `MkdirAll`: an existing name is answered (with success) under the read lock -/
+def mkdirAllTP (k : Key) (perm : Nat) : TwoPhase MemFs MRes where
+  pre m := if (m.lookup k).isSome then some .ok else none
+  act m := m.mkdirAll k perm
+  sound m x h := by
+    cases hl : m.lookup k with
+    | none => simp [hl] at h
+    | some f =>
+      simp [hl] at h
+      subst h
+      unfold MemFs.mkdirAll MemFs.mkdir
+      simp only [hl]
+
+/-- several goroutines calling Mkdir of one name: exactly the first linearized call succeeds -/
+example : (run2 MemFs.init [⟨[mkdirTP (keyOfStr "/d".toList) 0o755], false⟩, ⟨[mkdirTP (keyOfStr "/d".toList) 0o755], false⟩]
+    [0, 1, 1, 0]).2.1.map (·.2) = [.ok, .err .exist] := by decide
 
 /-! ### the lock shapes of the repaired source -/
 
